@@ -1,6 +1,6 @@
 rc_target("c09_array", flavour="asan-dbg")
 rc_target("c09_linked", flavour="asan-dbg")
-plan("C09", [T("c09_array", 15000, 120000), T("c09_linked", 15000, 120000)], min_nt=7000,
+plan("C09", [T("c09_array", 25000, 200000), T("c09_linked", 25000, 200000)], min_nt=12000,
      rule="stateful command sequences against a reference sequence (array list: vector of byte strings per list; linked list: two id vectors + membership table)",
      technique="model-based property testing (rapidcheck): command sequences vs. a reference sequence, full content / traversal comparison after every command",
      level_text="Generated search: thousands of shrinking command sequences (<=60 commands) per run. Array list: two lists of one item size in "
